@@ -939,7 +939,8 @@ func main() {
 	// the real precompiler, run on every rules file (in parallel; each is a process of its own)
 	toolOut := make([]string, len(items))
 	toolErr := make([]string, len(items))
-	if *gorules != "" {
+	convDiff := make([]string, len(items))
+	{
 		var wg sync.WaitGroup
 		sem := make(chan struct{}, 8)
 		for id, it := range items {
@@ -947,10 +948,14 @@ func main() {
 				continue
 			}
 			wg.Add(1)
-			go func(id int, path string) {
+			go func(id int, path string, f *ir.File) {
 				defer wg.Done()
 				sem <- struct{}{}
 				defer func() { <-sem }()
+				convDiff[id] = engineConvDiff(path, f)
+				if *gorules == "" {
+					return
+				}
 				var stdout, stderr bytes.Buffer
 				cmd := exec.Command(*gorules, "precompile", "-rules", path)
 				cmd.Stdout, cmd.Stderr = &stdout, &stderr
@@ -959,10 +964,15 @@ func main() {
 					return
 				}
 				toolOut[id] = stdout.String()
-			}(id, it.rulesPath)
+			}(id, it.rulesPath, it.f)
 		}
 		wg.Wait()
 	}
+
+	// every distinct string token of the printed texts, with what strconv.Unquote makes of it (the literal trees carry the
+	// decoded strings; the Coq model of Go's interpreted string literals is run on the raw tokens)
+	tokens := map[string]string{}
+	tokenCase := map[string]string{}
 
 	enc := json.NewEncoder(os.Stdout)
 	var batch []Case
@@ -1001,9 +1011,7 @@ func main() {
 				c.Text, c.PrintErr = toolOut[id], ""
 			}
 		}
-		if it.rulesPath != "" {
-			c.EngineConvDiffers = engineConvDiff(it.rulesPath, it.f)
-		}
+		c.EngineConvDiffers = convDiff[id]
 		if c.PrintErr == "" {
 			fset := token.NewFileSet()
 			e, err := parser.ParseExprFrom(fset, "lit.go", c.Text, 0)
@@ -1011,11 +1019,39 @@ func main() {
 				c.ParseErr = err.Error()
 			} else {
 				c.Lit = encLit(fset, e)
+				ast.Inspect(e, func(n ast.Node) bool {
+					if bl, ok := n.(*ast.BasicLit); ok && bl.Kind == token.STRING {
+						if _, seen := tokens[bl.Value]; !seen {
+							if dec, err := strconv.Unquote(bl.Value); err == nil {
+								tokens[bl.Value] = dec
+								tokenCase[bl.Value] = it.name
+							}
+						}
+					}
+					return true
+				})
 				c.TypeErr = chk.typecheckLiteral(c.Text)
 			}
 		}
 		enc.Encode(c)
 		batch = append(batch, c)
+	}
+	{
+		var raws []string
+		for raw := range tokens {
+			raws = append(raws, raw)
+		}
+		sort.Strings(raws)
+		type tok struct {
+			Raw  []int  `json:"raw"`
+			Dec  []int  `json:"dec"`
+			Case string `json:"case"`
+		}
+		var toks []tok
+		for _, raw := range raws {
+			toks = append(toks, tok{bytesOf(raw), bytesOf(tokens[raw]), tokenCase[raw]})
+		}
+		enc.Encode(map[string]interface{}{"string_tokens": toks})
 	}
 	histories := g.histories(batch, targDir, *nhist)
 	for _, h := range histories {
